@@ -1,7 +1,7 @@
 (* C02 — theorems.  Only statements and `exact lemma` here.  NOTES.md says in plain words what each
    one means and what is not proved. *)
 From GixV.Base Require Import Bytes Outcome.
-From GixV.C02 Require Import Model Spec ProofsTree ProofsIter ProofsTagIter ProofsWrite ProofsKnown ProofsTime ProofsSig.
+From GixV.C02 Require Import Model Spec ProofsTree ProofsIter ProofsTagIter ProofsWrite ProofsKnown ProofsTime ProofsSig ProofsCommitRT.
 
 (* ---- trees ------------------------------------------------------------------------------------ *)
 
@@ -101,6 +101,17 @@ Definition commit_git_roundtrip_full_statement : Prop := forall c, commit_wf c =
   commit_decode (git_write_commit c) = Ok (commitref_of c)
   /\ commit_iter (git_write_commit c) = map IOk (commit_tokens_of c)
   /\ commit_write (commitref_of c) = Ok (git_write_commit c).
+
+(* PROVED part: every commit git writes WITHOUT extra headers (tree, any number of parents, author,
+   committer, optional encoding, any message bytes) *)
+Theorem commit_git_roundtrip_no_extra_headers : forall c, commit_wf c = true -> gc_extra c = [] ->
+  commit_decode (git_write_commit c) = Ok (commitref_of c)
+  /\ commit_iter (git_write_commit c) = map IOk (commit_tokens_of c)
+  /\ commit_write (commitref_of c) = Ok (git_write_commit c).
+Proof.
+  intros c H Hx. pose proof (L_commit_plain_decodes c H Hx) as D.
+  split; [exact D|]. split; [exact (L_iter_of_decoded c H D)|exact (L_commit_plain_writes c H Hx)].
+Qed.
 
 Definition tag_git_roundtrip_full_statement : Prop := forall g, tag_wf g = true ->
   tag_decode (git_write_tag g) = Ok (tagref_of g)
